@@ -13,7 +13,14 @@
 -/
 namespace Repo
 
-abbrev Path := String
+/-- A workspace path.  Only its identity and its extension matter to the commands modelled here, so it
+    is a pair of numbers (the driver interns path strings and extensions); this keeps every concrete
+    witness kernel-decidable. -/
+structure Path where
+  id : Nat
+  ext : Nat          -- interned extension; `0` = no extension
+  deriving DecidableEq, Repr
+
 abbrev Bytes := List Nat
 abbrev Ent := Nat
 
@@ -50,15 +57,11 @@ def digestOf (algo : Nat) (t : Tob) (b : Bytes) : Digest :=
 /-- `XvcCachePath::new(xvc_path, digest)`: algorithm prefix / digest split 3-3-58 / `0.<ext>`. -/
 structure Addr where
   d : Digest
-  ext : String
+  ext : Nat
   deriving DecidableEq, Repr
 
 /-- extension of a path (what `XvcCachePath::new` takes from the path) -/
-def ext (p : Path) : String :=
-  let file := (p.splitOn "/").getLast!
-  match (file.splitOn ".").reverse with
-  | e :: _ :: _ => if file.startsWith "." && (file.splitOn ".").length = 2 then "" else e
-  | _ => ""
+def ext (p : Path) : Nat := p.ext
 
 def addrOf (p : Path) (d : Digest) : Addr := ⟨d, ext p⟩
 
@@ -142,6 +145,12 @@ def St.setCache (s : St) (a : Addr) (o : Option Obj) : St :=
 
 def St.tick (s : St) : St := { s with clock := s.clock + 1 }
 
+/-- one record written (all five stores of the entity at once) -/
+def St.setRec (s : St) (e : Ent) (r : Option Rec) : St := { s with recs := upd s.recs e r }
+
+/-- `xvc_root.new_entity()` -/
+def St.bumpNext (s : St) : St := { s with next := s.next + 1 }
+
 /-- entity recorded for path `p` (`entity_by_value` on the path store) -/
 def St.findEnt (s : St) (p : Path) : Option Ent :=
   (List.range s.next).find? (fun e => match s.recs e with | some r => r.path = p | none => false)
@@ -214,34 +223,36 @@ structure TrackOpts where
   force : Bool := false
   deriving Repr
 
+/-- `cmd_track` for one explicit file target that reads as bytes `b` with modification stamp `stamp`. -/
+def St.trackFile (c : Cfg) (o : TrackOpts) (s : St) (p : Path) (b : Bytes) (stamp : Nat) : St × Out :=
+  let reqM := o.method.getD c.method          -- `update_from_conf`: CLI or the configured default
+  let reqT := o.tob.getD c.tob
+  let actual := digestOf c.algo reqT b
+  match s.findEnt p with
+  | none =>
+    -- path, metadata, method, tob and digest diffs are all `RecordMissing`
+    let r : Rec := { path := p, md := .stamp stamp, digests := [actual], method := reqM, tob := reqT }
+    let s1 := (s.setRec s.next (some r)).bumpNext
+    if o.noCommit then (s1, .ok) else s1.carryOne p (addrOf p actual) reqM o.force
+  | some e =>
+    match s.recs e with
+    | none => (s, .ok)
+    | some r =>
+      if r.md = .stamp stamp then (s, .ok)            -- nothing changed: every diff is `Skipped`
+      else
+        let changedDigest := r.cur ≠ some actual
+        let r' : Rec := { r with md := .stamp stamp, method := reqM, tob := reqT,
+                                 digests := if changedDigest then r.digests ++ [actual] else r.digests }
+        let s1 := s.setRec e (some r')
+        if o.noCommit || !changedDigest then (s1, .ok)
+        else s1.carryOne p (addrOf p actual) reqM o.force
+
 /-- `cmd_track` restricted to one explicit file target (targets come from disk: a target that is not
     readable there is silently skipped). -/
 def St.trackOne (c : Cfg) (o : TrackOpts) (s : St) (p : Path) : St × Out :=
   match s.readThrough p with
   | none => (s, .ok)
-  | some (b, stamp) =>
-    let reqM := o.method.getD c.method          -- `update_from_conf`: CLI or the configured default
-    let reqT := o.tob.getD c.tob
-    let actual := digestOf c.algo reqT b
-    match s.findEnt p with
-    | none =>
-      -- path, metadata, method, tob and digest diffs are all `RecordMissing`
-      let e := s.next
-      let r : Rec := { path := p, md := .stamp stamp, digests := [actual], method := reqM, tob := reqT }
-      let s := { s with recs := upd s.recs e (some r), next := s.next + 1 }
-      if o.noCommit then (s, .ok) else s.carryOne p (addrOf p actual) reqM o.force
-    | some e =>
-      match s.recs e with
-      | none => (s, .ok)
-      | some r =>
-        if r.md = .stamp stamp then (s, .ok)            -- nothing changed: every diff is `Skipped`
-        else
-          let changedDigest := r.cur ≠ some actual
-          let r' : Rec := { r with md := .stamp stamp, method := reqM, tob := reqT,
-                                   digests := if changedDigest then r.digests ++ [actual] else r.digests }
-          let s := { s with recs := upd s.recs e (some r') }
-          if o.noCommit || !changedDigest then (s, .ok)
-          else s.carryOne p (addrOf p actual) reqM o.force
+  | some (b, stamp) => s.trackFile c o p b stamp
 
 /-- run a per-target procedure over a target list; the first panic ends the process -/
 def forEach {α : Type} (f : St → α → St × Out) : St → List α → St × Out
@@ -275,64 +286,68 @@ def St.actualMeta (s : St) (p : Path) : MetaRec :=
   | some (_, stamp) => .stamp stamp
   | none => .missing
 
-/-- `cmd_carry_in` for one tracked target (`tob` is the CLI option or the configured default —
-    never the stored one). -/
+/-- `cmd_carry_in` for one tracked target with record `r` at entity `e` (`tob` is the CLI option or
+    the configured default — never the stored one). -/
+def St.carryInRec (c : Cfg) (tob : Option Tob) (force : Bool) (s : St) (p : Path) (e : Ent) (r : Rec) : St × Out :=
+  let reqT := tob.getD c.tob
+  let dd := s.digestDiff c r reqT
+  let tobChanged := r.tob ≠ reqT
+  let toCarry := force || dd ≠ .same || tobChanged
+  let r' : Rec := { r with md := s.actualMeta p, tob := reqT,
+                           digests := match dd with
+                             | .different a => r.digests ++ [a]
+                             | _ => r.digests }
+  if !toCarry then (s.setRec e (some r'), .ok)
+  else
+    match dd, r.cur with
+    | .actualMissing, _ => (s, .panic)             -- dropped from the address map: length assertion
+    | .different a, _ =>
+      (((s.carryOne p (addrOf p a) r.method force).1).setRec e (some r'), (s.carryOne p (addrOf p a) r.method force).2)
+    | .same, some d =>
+      (((s.carryOne p (addrOf p d) r.method force).1).setRec e (some r'), (s.carryOne p (addrOf p d) r.method force).2)
+    | .same, none => (s, .panic)
+
 def St.carryInOne (c : Cfg) (tob : Option Tob) (force : Bool) (s : St) (p : Path) : St × Out :=
   match s.findEnt p with
   | none => (s, .ok)                                   -- not in the store: not a target
   | some e =>
     match s.recs e with
     | none => (s, .ok)
-    | some r =>
-      let reqT := tob.getD c.tob
-      let dd := s.digestDiff c r reqT
-      let tobChanged := r.tob ≠ reqT
-      let toCarry := force || dd ≠ .same || tobChanged
-      let am := s.actualMeta p
-      let r' : Rec := { r with md := am, tob := reqT,
-                               digests := match dd with
-                                 | .different a => r.digests ++ [a]
-                                 | _ => r.digests }
-      if !toCarry then ({ s with recs := upd s.recs e (some r') }, .ok)
-      else
-        match dd, r.cur with
-        | .actualMissing, _ => (s, .panic)             -- dropped from the address map: length assertion
-        | .different a, _ =>
-          let (s, o) := s.carryOne p (addrOf p a) r.method force
-          ({ s with recs := upd s.recs e (some r') }, o)
-        | .same, some d =>
-          let (s, o) := s.carryOne p (addrOf p d) r.method force
-          ({ s with recs := upd s.recs e (some r') }, o)
-        | .same, none => (s, .panic)
+    | some r => s.carryInRec c tob force p e r
 
 def St.carryIn (c : Cfg) (tob : Option Tob) (force : Bool) (s : St) (ps : List Path) : St × Out :=
   forEach (St.carryInOne c tob force) s ps
 
 /-! ## `recheck` -/
 
-/-- `cmd_recheck` for one tracked target (after the F1 repair: the digest store is never touched). -/
+/-- does `recheck` act on the entity?  `--force`, or a changed method on a file that has no
+    uncommitted changes (`recheck_method_targets` after the `retain`), or a file missing on disk -/
+def St.recheckActs (c : Cfg) (s : St) (r : Rec) (eff : Method) (force : Bool) : Bool :=
+  force ||
+  (decide (eff ≠ r.method) && (match s.digestDiff c r r.tob with | .different _ => false | _ => true)) ||
+  decide (s.digestDiff c r r.tob = .actualMissing)
+
+/-- `cmd_recheck` for one tracked target with record `r` (after the F1 repair: the digest store is
+    never touched). -/
+def St.recheckRec (c : Cfg) (m : Option Method) (force : Bool) (s : St) (p : Path) (e : Ent) (r : Rec) : St × Out :=
+  let eff := m.getD r.method                     -- requested, else stored (`diff_recheck_method`)
+  if !(s.recheckActs c r eff force) then
+    (s, if eff ≠ r.method then .refused else .ok)   -- "has changed on disk": reported, nothing done
+  else
+    match r.cur with
+    | none => (s, .panic)
+    | some d =>
+      let s1 := s.setRec e (some { r with method := eff })
+      if (s1.cache (addrOf p d)).isSome then s1.recheckFromCache p (addrOf p d) eff
+      else (s1, .refused)                          -- "cannot found in cache"
+
 def St.recheckOne (c : Cfg) (m : Option Method) (force : Bool) (s : St) (p : Path) : St × Out :=
   match s.findEnt p with
   | none => (s, .ok)
   | some e =>
     match s.recs e with
     | none => (s, .ok)
-    | some r =>
-      let eff := m.getD r.method                     -- requested, else stored (`diff_recheck_method`)
-      let dd := s.digestDiff c r r.tob               -- tob := stored
-      let methodTarget := eff ≠ r.method && (match dd with | .different _ => false | _ => true)
-      let missing := dd = .actualMissing
-      if !(force || methodTarget || missing) then
-        (s, if eff ≠ r.method then .refused else .ok)   -- "has changed on disk": reported, nothing done
-      else
-        match r.cur with
-        | none => (s, .panic)
-        | some d =>
-          let s := { s with recs := upd s.recs e (some { r with method := eff }) }
-          if (s.cache (addrOf p d)).isSome then
-            let s := if (s.readThrough p).isSome then s.setWs p none else s
-            s.recheckFromCache p (addrOf p d) eff
-          else (s, .refused)                          -- "cannot found in cache"
+    | some r => s.recheckRec c m force p e r
 
 def St.recheck (c : Cfg) (m : Option Method) (force : Bool) (s : St) (ps : List Path) : St × Out :=
   forEach (St.recheckOne c m force) s ps
@@ -350,13 +365,10 @@ def St.versionsOf (s : St) (e : Ent) : List Addr :=
 def St.otherReferrers (s : St) (targets : List Ent) (a : Addr) : List Ent :=
   s.ents.filter (fun e => e ∉ targets ∧ a ∈ s.versionsOf e)
 
-/-- `XvcCachePath::remove`: directory and file writable, unlink, prune empty directories
-    (the directory is *not* made read-only again when another extension still lives in it). -/
+/-- `XvcCachePath::remove`: directory and file writable, unlink, directory read-only again when
+    another extension still lives in it, empty directories pruned. -/
 def St.removeObj (s : St) (a : Addr) : St :=
-  if (s.cache a).isSome then
-    let s := (s.detach a).setCache a none
-    { s with dirRo := upd s.dirRo a.d false }
-  else s
+  if (s.cache a).isSome then (s.detach a).setCache a none else s
 
 def St.targetEnts (s : St) (ps : List Path) : List Ent := ps.filterMap s.findEnt
 
@@ -427,7 +439,7 @@ def St.copy (c : Cfg) (o : CopyOpts) (s : St) (src dst : Path) : St × Out :=
             | some old => { old with md := r.md, tob := r.tob, method := m,
                                      digests := old.digests ++ r.cur.toList }
             | none => { path := dst, md := r.md, digests := r.cur.toList, method := m, tob := r.tob }
-          let s := { s with recs := upd s.recs de (some r'), next := if destEnt.isSome then s.next else s.next + 1 }
+          let s := if destEnt.isSome then s.setRec de (some r') else (s.setRec de (some r')).bumpNext
           if o.noRecheck then (s, .ok)
           else
             match r.cur with
@@ -447,7 +459,7 @@ def St.move (c : Cfg) (o : CopyOpts) (s : St) (src dst : Path) : St × Out :=
       else if (s.ws dst).isSome && !o.force then (s, .refused)                        -- F10 repair
       else
         let m := o.method.getD r.method
-        let s := { s with recs := upd s.recs se (some { r with path := dst, method := m }) }
+        let s := s.setRec se (some { r with path := dst, method := m })
         let bothCopy := (r.method = .copy) && (m = .copy)
         if bothCopy then
           if src = dst then (s, .ok)
